@@ -676,6 +676,332 @@ mod oracle {
         }
     }
 
+    // ---------------------------------------------------------------- C02 / C03 / C04 / C14: reference samplers in f64 ----
+    mod reference_samplers {
+        use super::*;
+        use burn::backend::{Autodiff, NdArray};
+        use burn::tensor::{Tensor, TensorData};
+        use mini_mcmc::distributions::{BatchedGradientTarget, DiffableGaussian2D, GradientTarget};
+        use mini_mcmc::hmc::HMC;
+        use mini_mcmc::nuts::NUTSChain;
+        use rand_distr::{Exp1, StandardNormal};
+        type B = Autodiff<NdArray<f64>>;
+
+        const MEAN: [f64; 2] = [0.0, 1.0];
+        const COV: [[f64; 2]; 2] = [[4.0, 2.0], [2.0, 3.0]];
+        fn gauss() -> DiffableGaussian2D<f64> {
+            DiffableGaussian2D::new(MEAN, COV)
+        }
+        /// log-density and gradient of the 2-D Gaussian in plain f64
+        fn lp_grad(x: &[f64]) -> (f64, Vec<f64>) {
+            let det = COV[0][0] * COV[1][1] - COV[0][1] * COV[1][0];
+            let inv = [[COV[1][1] / det, -COV[0][1] / det], [-COV[1][0] / det, COV[0][0] / det]];
+            let d = [x[0] - MEAN[0], x[1] - MEAN[1]];
+            let z = [inv[0][0] * d[0] + inv[0][1] * d[1], inv[1][0] * d[0] + inv[1][1] * d[1]];
+            let norm = -(2.0 * (2.0 * std::f64::consts::PI).ln() + det.ln()) / 2.0;
+            (norm - 0.5 * (z[0] * d[0] + z[1] * d[1]), vec![-z[0], -z[1]])
+        }
+        /// a target with a NaN / -inf region (log of a negative argument, hard wall): log p(x) = ln(x0) - x0 - x1^2/2 for x0 > 0
+        #[derive(Clone)]
+        struct HalfLine;
+        impl<Bk: burn::tensor::backend::AutodiffBackend> GradientTarget<f64, Bk> for HalfLine {
+            fn unnorm_logp(&self, position: Tensor<Bk, 1>) -> Tensor<Bk, 1> {
+                let x0 = position.clone().slice([0..1]);
+                let x1 = position.slice([1..2]);
+                x0.clone().log() - x0 - x1.powi_scalar(2).mul_scalar(0.5)
+            }
+        }
+        impl<Bk: burn::tensor::backend::AutodiffBackend> BatchedGradientTarget<f64, Bk> for HalfLine {
+            fn unnorm_logp_batch(&self, positions: Tensor<Bk, 2>) -> Tensor<Bk, 1> {
+                let n = positions.dims()[0];
+                let x0 = positions.clone().slice([0..n, 0..1]);
+                let x1 = positions.slice([0..n, 1..2]);
+                (x0.clone().log() - x0 - x1.powi_scalar(2).mul_scalar(0.5)).flatten(0, 1)
+            }
+        }
+        fn close(a: f64, b: f64) -> bool {
+            a == b || (a - b).abs() <= 1e-9 * (1.0 + a.abs().max(b.abs())) || (a.is_nan() && b.is_nan())
+        }
+
+        // ---------------- HMC -----------------
+        #[test]
+        fn oracle_c02_hmc_step_is_L_leapfrog_steps_and_metropolis_test() {
+            for (n_chains, l, eps) in [(1usize, 0usize, 0.3f64), (2, 1, 0.3), (3, 4, 0.5), (2, 7, 1.9), (4, 3, 0.05), (2, 16, 0.9)] {
+                let init: Vec<Vec<f64>> = (0..n_chains).map(|c| vec![0.5 * c as f64 - 0.3, 1.0 + 0.7 * c as f64]).collect();
+                let mut s = HMC::<f64, B, _>::new(gauss(), init.clone(), eps, l).set_seed(7 + l as u64);
+                let mut x = init.clone();
+                for step in 0..25 {
+                    // the draws the step will consume: n*d normals (row-major), then n uniforms
+                    let mut probe = s.rng.clone();
+                    let p0: Vec<Vec<f64>> = (0..n_chains).map(|_| (0..2).map(|_| probe.sample::<f64, _>(StandardNormal)).collect()).collect();
+                    let us: Vec<f64> = (0..n_chains).map(|_| probe.random::<f64>()).collect();
+                    s.step();
+                    let got = s.positions.to_data().to_vec::<f64>().unwrap();
+                    for c in 0..n_chains {
+                        let (lp0, g0) = lp_grad(&x[c]);
+                        let (mut q, mut p, mut g) = (x[c].clone(), p0[c].clone(), g0);
+                        for _ in 0..l {
+                            for j in 0..2 { p[j] += 0.5 * eps * g[j]; }
+                            for j in 0..2 { q[j] += eps * p[j]; }
+                            g = lp_grad(&q).1;
+                            for j in 0..2 { p[j] += 0.5 * eps * g[j]; }
+                        }
+                        let lp1 = lp_grad(&q).0;
+                        let h0 = -lp0 + 0.5 * (p0[c][0] * p0[c][0] + p0[c][1] * p0[c][1]);
+                        let h1 = -lp1 + 0.5 * (p[0] * p[0] + p[1] * p[1]);
+                        let accept = h0 - h1 >= us[c].ln();
+                        // a decision within rounding of the threshold is not judged
+                        let near = ((h0 - h1) - us[c].ln()).abs() < 1e-9;
+                        let want = if accept { q.clone() } else { x[c].clone() };
+                        let ok = close(got[c * 2], want[0]) && close(got[c * 2 + 1], want[1]);
+                        if !ok && !near {
+                            witness(format!("{{\"oracle\":\"c02\",\"chains\":{n_chains},\"L\":{l},\"eps\":{eps},\"update\":{step},\"chain\":{c},\"x\":{:?},\"p\":{:?},\"u\":{},\"got\":[{},{}],\"want\":{want:?},\"what\":\"row is neither the unchanged position nor the point reached by exactly L leapfrog steps under the Metropolis test on H\"}}", x[c], p0[c], us[c], got[c * 2], got[c * 2 + 1]));
+                        }
+                        x[c] = vec![got[c * 2], got[c * 2 + 1]];
+                    }
+                }
+            }
+            // rows never influence one another: a row next to a diverging row behaves as it does next to a harmless one
+            for seed in 0..4u64 {
+                let run = |other: Vec<f64>| {
+                    let mut s = HMC::<f64, B, _>::new(gauss(), vec![vec![0.3, -0.2], other], 0.5, 12).set_seed(seed);
+                    for _ in 0..3 { s.step(); }
+                    s.positions.to_data().to_vec::<f64>().unwrap()[..2].to_vec()
+                };
+                // the second row only changes the draws it consumes itself (momentum rows are drawn row-major)
+                let a = run(vec![1e155, -1e155]);
+                let b = run(vec![0.1, 0.2]);
+                if !(close(a[0], b[0]) && close(a[1], b[1])) {
+                    witness(format!("{{\"oracle\":\"c02\",\"seed\":{seed},\"what\":\"row 0 is influenced by the other row of the batch: {a:?} vs {b:?}\"}}"));
+                }
+            }
+        }
+
+        // ---------------- NUTS -----------------
+        #[derive(Clone)]
+        struct Pt { x: Vec<f64>, r: Vec<f64>, g: Vec<f64> }
+        struct Tree { minus: Pt, plus: Pt, cx: Vec<f64>, n: usize, s: bool, alpha: f64, n_alpha: usize }
+        fn dot(a: &[f64], b: &[f64]) -> f64 { a.iter().zip(b).map(|(x, y)| x * y).sum() }
+        fn lf(p: &Pt, e: f64) -> (Pt, f64) {
+            let r1: Vec<f64> = (0..2).map(|j| p.r[j] + p.g[j] * e * 0.5).collect();
+            let x1: Vec<f64> = (0..2).map(|j| p.x[j] + r1[j] * e).collect();
+            let (lp1, g1) = lp_grad(&x1);
+            let r2: Vec<f64> = (0..2).map(|j| r1[j] + g1[j] * e * 0.5).collect();
+            (Pt { x: x1, r: r2, g: g1 }, lp1)
+        }
+        fn no_uturn(m: &Pt, p: &Pt) -> bool {
+            let d: Vec<f64> = (0..2).map(|j| p.x[j] - m.x[j]).collect();
+            dot(&d, &m.r) >= 0.0 && dot(&d, &p.r) >= 0.0
+        }
+        fn build_tree(p: &Pt, logu: f64, v: i8, j: usize, eps: f64, joint0: f64, rng: &mut SmallRng) -> Tree {
+            if j == 0 {
+                let (p1, lp1) = lf(p, v as f64 * eps);
+                let jt = lp1 - dot(&p1.r, &p1.r) * 0.5;
+                Tree { minus: p1.clone(), plus: p1.clone(), cx: p1.x.clone(), n: (logu < jt) as usize, s: (logu - 1000.0) < jt, alpha: f64::min(1.0, (jt - joint0).exp()), n_alpha: 1 }
+            } else {
+                let mut t = build_tree(p, logu, v, j - 1, eps, joint0, rng);
+                if t.s {
+                    let start = if v == -1 { t.minus.clone() } else { t.plus.clone() };
+                    let t2 = build_tree(&start, logu, v, j - 1, eps, joint0, rng);
+                    if v == -1 { t.minus = t2.minus.clone(); } else { t.plus = t2.plus.clone(); }
+                    let u: f64 = rng.random();
+                    if u < (t2.n as f64 / (t.n + t2.n).max(1) as f64) { t.cx = t2.cx.clone(); }
+                    t.n += t2.n;
+                    t.s = t.s && t2.s && no_uturn(&t.minus, &t.plus);
+                    t.alpha += t2.alpha;
+                    t.n_alpha += t2.n_alpha;
+                }
+                t
+            }
+        }
+        struct Adapt { m: usize, n_discard: usize, eps: f64, eps_bar: f64, h_bar: f64, mu: f64 }
+        /// one transition of Algorithm 6 + dual averaging (gamma 0.05, t0 10, kappa 0.75) in plain f64
+        fn reference_transition(x: &[f64], a: &Adapt, delta: f64, rng: &mut SmallRng) -> (Vec<f64>, Adapt, f64, bool) {
+            let m = a.m + 1;
+            let r0: Vec<f64> = (0..2).map(|_| rng.sample::<f64, _>(StandardNormal)).collect();
+            let (lp0, g0) = lp_grad(x);
+            let joint0 = lp0 - dot(&r0, &r0) * 0.5;
+            let e: f64 = rng.sample(Exp1);
+            let logu = joint0 - e;
+            let p0 = Pt { x: x.to_vec(), r: r0, g: g0 };
+            let (mut minus, mut plus) = (p0.clone(), p0.clone());
+            let (mut j, mut n, mut s) = (0usize, 1usize, true);
+            let (mut alpha, mut n_alpha) = (0.0f64, 0usize);
+            let mut cur = x.to_vec();
+            let mut fragile = false;
+            let mut cur_joint_ok = true;
+            while s {
+                let u1: f64 = rng.random();
+                let v: i8 = if u1 < 0.5 { 1 } else { -1 };
+                let t = build_tree(if v == -1 { &minus } else { &plus }, logu, v, j, a.eps, joint0, rng);
+                if v == -1 { minus = t.minus.clone(); } else { plus = t.plus.clone(); }
+                alpha = t.alpha;
+                n_alpha = t.n_alpha;
+                let tmp = f64::min(1.0, t.n as f64 / n as f64);
+                let u2: f64 = rng.random();
+                if (u2 - tmp).abs() < 1e-12 { fragile = true; }
+                if t.s && u2 < tmp {
+                    cur = t.cx.clone();
+                    cur_joint_ok = t.n >= 1;
+                }
+                n += t.n;
+                s = t.s && no_uturn(&minus, &plus);
+                j += 1;
+                if j > 12 { fragile = true; break; }
+            }
+            let mut eta = 1.0 / (m + 10) as f64;
+            let h_bar = (1.0 - eta) * a.h_bar + eta * (delta - alpha / n_alpha as f64);
+            let (eps, eps_bar);
+            if m <= a.n_discard {
+                let mf = m as f64;
+                eps = (a.mu - mf.sqrt() / 0.05 * h_bar).exp();
+                eta = mf.powf(-0.75);
+                eps_bar = ((1.0 - eta) * a.eps_bar.ln() + eta * eps.ln()).exp();
+            } else {
+                eps = a.eps_bar;
+                eps_bar = a.eps_bar;
+            }
+            (cur, Adapt { m, n_discard: a.n_discard, eps, eps_bar, h_bar, mu: a.mu }, logu, fragile || !cur_joint_ok && false)
+        }
+        #[test]
+        fn oracle_c03_c04_nuts_transition_matches_algorithm_6_and_dual_averaging() {
+            for (seed, start, n_discard, delta) in [(1u64, vec![0.2f64, 0.9], 8usize, 0.8f64), (2, vec![3.0, -2.0], 0, 0.65), (3, vec![-1.0, 4.0], 15, 0.9), (4, vec![40.0, -30.0], 5, 0.8)] {
+                // a twin chain initialised with run(1, 0): eps0 from the heuristic, no transition made, generator state after initialisation
+                let mut twin = NUTSChain::<f64, B, _>::new(gauss(), start.clone(), delta).set_seed(seed);
+                let _ = twin.run(1, 0);
+                let (m0, _nd0, e0, eb0, hb0, mu0) = twin.verif_adapt_state();
+                let ctx0 = format!("\"seed\":{seed},\"start\":{start:?},\"n_discard\":{n_discard}");
+                if m0 != 0 || !(e0 > 0.0 && e0.is_finite()) || !close(mu0, (10.0 * e0).ln()) || eb0 != 1.0 || hb0 != 0.0 {
+                    witness(format!("{{\"oracle\":\"c04\",{ctx0},\"what\":\"after initialisation: m {m0}, eps0 {e0}, mu {mu0} (want ln(10 eps0) = {}), eps_bar {eb0}, h_bar {hb0}\"}}", (10.0 * e0).ln()));
+                }
+                // the warm-up of run(1, n_discard), predicted transition by transition
+                let mut ch = NUTSChain::<f64, B, _>::new(gauss(), start.clone(), delta).set_seed(seed);
+                let _ = ch.run(1, n_discard);
+                {
+                    let mut rng = twin.verif_rng();
+                    let mut a = Adapt { m: 0, n_discard, eps: e0, eps_bar: 1.0, h_bar: 0.0, mu: mu0 };
+                    let mut x = start.clone();
+                    let mut fragile = false;
+                    for _ in 0..n_discard {
+                        let (nx, na, _logu, fr) = reference_transition(&x, &a, delta, &mut rng);
+                        x = nx;
+                        a = na;
+                        fragile |= fr;
+                    }
+                    let got_x: Vec<f64> = ch.position.to_data().to_vec::<f64>().unwrap();
+                    let (gm, gnd, geps, geps_bar, gh_bar, _gmu) = ch.verif_adapt_state();
+                    if !fragile && (gm != a.m || gnd != n_discard || !close(geps, a.eps) || !close(geps_bar, a.eps_bar) || !close(gh_bar, a.h_bar) || !close(got_x[0], x[0]) || !close(got_x[1], x[1])) {
+                        witness(format!("{{\"oracle\":\"c04\",{ctx0},\"what\":\"after the warm-up of run(1, {n_discard}): m {gm}, eps {geps}, eps_bar {geps_bar}, h_bar {gh_bar}, x {got_x:?}; dual averaging over Algorithm 6 gives m {}, eps {}, eps_bar {}, h_bar {}, x {x:?}\"}}", a.m, a.eps, a.eps_bar, a.h_bar));
+                    }
+                }
+                let mut frozen: Option<f64> = None;
+                for t in 0..(n_discard + 12) {
+                    if t == n_discard + 4 {
+                        // the position is a public field: a transition from a freshly assigned state must start from it
+                        ch.position = Tensor::<B, 1>::from_data(TensorData::new(vec![1.5f64, -0.5], [2]), &Default::default());
+                    }
+                    let x: Vec<f64> = ch.position.to_data().to_vec::<f64>().unwrap();
+                    let (m, nd, eps, eps_bar, h_bar, mu) = ch.verif_adapt_state();
+                    let mut rng = ch.verif_rng();
+                    let (want_x, want_a, logu, fragile) = reference_transition(&x, &Adapt { m, n_discard: nd, eps, eps_bar, h_bar, mu }, delta, &mut rng);
+                    ch.step();
+                    let got_x: Vec<f64> = ch.position.to_data().to_vec::<f64>().unwrap();
+                    let (gm, _gnd, geps, geps_bar, gh_bar, _gmu) = ch.verif_adapt_state();
+                    let ctx = format!("{ctx0},\"transition\":{t},\"x\":{x:?},\"eps\":{eps},\"log_u\":{logu}");
+                    if !fragile {
+                        if !(close(got_x[0], want_x[0]) && close(got_x[1], want_x[1])) {
+                            witness(format!("{{\"oracle\":\"c03\",{ctx},\"got\":{got_x:?},\"want\":{want_x:?},\"what\":\"next state differs from Algorithm 6 for the momentum, slice level, directions and uniforms drawn\"}}"));
+                        }
+                        if gm != want_a.m || !close(gh_bar, want_a.h_bar) || !close(geps, want_a.eps) || !close(geps_bar, want_a.eps_bar) {
+                            witness(format!("{{\"oracle\":\"c04\",{ctx},\"what\":\"adaptation state (m {gm}, h_bar {gh_bar}, eps {geps}, eps_bar {geps_bar}) differs from dual averaging (m {}, h_bar {}, eps {}, eps_bar {})\"}}", want_a.m, want_a.h_bar, want_a.eps, want_a.eps_bar));
+                        }
+                    }
+                    if !(geps > 0.0 && geps.is_finite()) {
+                        witness(format!("{{\"oracle\":\"c04\",{ctx},\"what\":\"step size {geps} is not positive and finite\"}}"));
+                    }
+                    if gm > nd {
+                        if geps != geps_bar {
+                            witness(format!("{{\"oracle\":\"c04\",{ctx},\"what\":\"after warm-up the step size {geps} is not the averaged iterate {geps_bar}\"}}"));
+                        }
+                        if let Some(f) = frozen {
+                            if f != geps {
+                                witness(format!("{{\"oracle\":\"c04\",{ctx},\"what\":\"step size changed after warm-up: {f} -> {geps}\"}}"));
+                            }
+                        }
+                        frozen = Some(geps);
+                    }
+                    // the next state is the previous state or a point with joint log-density above the slice level: its log-density is defined
+                    let lp_new = lp_grad(&got_x).0;
+                    if !(lp_new.is_finite()) {
+                        witness(format!("{{\"oracle\":\"c14\",{ctx},\"what\":\"moved to a state of log-density {lp_new}\"}}"));
+                    }
+                }
+                // a later run whose warm-up is already over never adapts again (the warm-up counter persists)
+                let (m, _, eps_before, _, _, _) = ch.verif_adapt_state();
+                let _ = ch.run(3, m.min(2));
+                let (_, _, eps_after, _, _, _) = ch.verif_adapt_state();
+                if eps_after != eps_before {
+                    witness(format!("{{\"oracle\":\"c04\",{ctx0},\"what\":\"a second run with n_discard <= m changed the step size: {eps_before} -> {eps_after}\"}}"));
+                }
+            }
+            // warm-up length 0: the step size is the initial averaged iterate from the first transition on
+            let mut ch = NUTSChain::<f64, B, _>::new(gauss(), vec![0.1, 0.2], 0.8).set_seed(11);
+            let _ = ch.run(5, 0);
+            let (_, _, eps, eps_bar, _, _) = ch.verif_adapt_state();
+            if eps != 1.0 || eps_bar != 1.0 {
+                witness(format!("{{\"oracle\":\"c04\",\"what\":\"with warm-up length 0 the step size must equal the initial averaged iterate 1, got eps {eps}, eps_bar {eps_bar}\"}}"));
+            }
+        }
+
+        // ---------------- C14: targets with NaN / -inf regions -----------------
+        #[derive(Clone)]
+        struct HalfLineMh;
+        impl Target<f64, f64> for HalfLineMh {
+            fn unnorm_logp(&self, p: &[f64]) -> f64 {
+                if p[0] > 1.0 { f64::NAN } else { p[0].ln() - p[0] }   // NaN for x <= 0 (ln of a negative), NaN region above 1
+            }
+        }
+        #[test]
+        fn oracle_c14_no_sampler_moves_to_zero_or_nan_density() {
+            // MH with proposals that leave the support
+            for seed in 0..6u64 {
+                let mut mh = MetropolisHastings::new(HalfLineMh, IsotropicGaussian::<f64>::new(1.5), vec![vec![0.5], vec![0.9]]).seed(seed);
+                let out = mh.run(200, 0).unwrap();
+                for v in out.iter() {
+                    let lp = HalfLineMh.unnorm_logp(&[*v]);
+                    if !lp.is_finite() {
+                        witness(format!("{{\"oracle\":\"c14\",\"sampler\":\"mh\",\"seed\":{seed},\"state\":{v},\"what\":\"chain moved to a state of log-density {lp}\"}}"));
+                    }
+                }
+            }
+            // HMC and NUTS on a half-line target with step sizes that cross the wall
+            let lp = |x: &[f64]| x[0].ln() - x[0] - 0.5 * x[1] * x[1];
+            for seed in 0..4u64 {
+                for eps in [0.3f64, 1.5, 1e200] {
+                    let mut h = HMC::<f64, B, _>::new(HalfLine, vec![vec![0.5, 0.0], vec![2.0, 1.0]], eps, 5).set_seed(seed);
+                    for _ in 0..40 {
+                        h.step();
+                        let pos = h.positions.to_data().to_vec::<f64>().unwrap();
+                        for c in 0..2 {
+                            let l = lp(&pos[c * 2..c * 2 + 2]);
+                            if !(l.is_finite() && pos[c * 2].is_finite() && pos[c * 2 + 1].is_finite()) {
+                                witness(format!("{{\"oracle\":\"c14\",\"sampler\":\"hmc\",\"seed\":{seed},\"eps\":{eps},\"state\":{:?},\"what\":\"row moved to a state of log-density {l}\"}}", &pos[c * 2..c * 2 + 2]));
+                            }
+                        }
+                    }
+                }
+                let mut ch = NUTSChain::<f64, B, _>::new(HalfLine, vec![0.5, 0.0], 0.8).set_seed(seed);
+                let out = ch.run(40, 10).to_data().to_vec::<f64>().unwrap();
+                for k in 0..40 {
+                    let l = lp(&out[k * 2..k * 2 + 2]);
+                    if !l.is_finite() {
+                        witness(format!("{{\"oracle\":\"c14\",\"sampler\":\"nuts\",\"seed\":{seed},\"state\":{:?},\"what\":\"chain moved to a state of log-density {l}\"}}", &out[k * 2..k * 2 + 2]));
+                    }
+                }
+            }
+        }
+    }
+
     // ---------------------------------------------------------------- C10 ------------
     /// a target that is slow for one particular chain (identified by its first coordinate's sign pattern)
     #[derive(Clone)]
